@@ -200,7 +200,7 @@ def run(ctx):
         for pt in symx.loop_paths(tl, touter[0], P):
             if pt.end != "next":
                 continue
-            hk = [ev_ for ev_ in pt.events if ev_[0] == "branch" and ev_[1][0] == "nz" and re.match(r"^h->table\[\w+\]\.key$", ev_[1][1])]
+            hk = [ev_ for ev_ in pt.events if ev_[0] == "branch" and ev_[1][0] == "nz" and re.match(r"^h->table\[\w+\]\.key$", symx.plain(ev_[1][1]))]
             adds_ = [(i_, ev_) for i_, ev_ in enumerate(pt.events) if ev_[0] == "call" and ev_[1] == "glist_add_ptr"]
             if not hk:
                 bad5["visit-guard"] = "a bucket is exported without testing its head key"
@@ -221,7 +221,7 @@ def run(ctx):
                 incs_ = [x for x in pt.events[i_:nxt_] if x[0] == "store" and x[1] == "j"]
                 if len(incs_) != 1:
                     bad5["count"] = "an exported entry is not counted exactly once"
-                stepped = [x for x in pt.events[i_:nxt_] if x[0] == "store" and lin.p_str(x[2]) == symx.field_of(E, "next")]
+                stepped = [x for x in pt.events[i_:nxt_] if x[0] == "store" and symx.plain(lin.p_str(x[2])) == symx.plain(symx.field_of(E, "next"))]
                 if not stepped:
                     bad5["chain-loop"] = "after exporting an entry the walk does not continue with its `next`"
             last = [x for x in pt.events if x[0] == "branch" and x[1][0] == "nz" and ("@L" in x[1][1] or x[1][1].endswith(".next"))]
@@ -309,13 +309,13 @@ def run(ctx):
                     if len(ev_[2]) != 2 or ev_[2][1] != "key" or not (E.startswith("&") or re.match(r"^h->table \+ \w+$", E) or any(x[1] == ("nz", E) and x[2] for x in before)):
                         bad6[ev_[1] + ":args"] = "comparator called as %s(%s) on an entry not known to exist" % (ev_[1], ", ".join(ev_[2]))
                     lk_ = ("==",) + tuple(sorted((symx.field_of(E, "len"), "len")))
-                    if not any(x[1] == lk_ and x[2] for x in before):
+                    if not any(symx.plain(x[1]) == symx.plain(lk_) and x[2] for x in before):
                         bad6[ev_[1] + ":len-first"] = "key bytes are compared without first establishing equal length (prefix keys would match)"
                 if ev_[0] == "store" and ev_[1] == "entry" and lin.p_str(ev_[2]).endswith("next") and i_ > 0:
                     steps += 1
                     if f is delete:
                         pv = [x for x in pt.events[:i_] if x[0] == "store" and x[1] == "prev"]
-                        if not pv or symx.field_of(lin.p_str(pv[-1][2]), "next") != lin.p_str(ev_[2]):
+                        if not pv or symx.plain(symx.field_of(lin.p_str(pv[-1][2]), "next")) != symx.plain(lin.p_str(ev_[2])):
                             bad6["prev-trails"] = "`prev` does not trail `entry` along the chain: a chained entry would be deleted as if it were another"
                 if ev_[0] == "branch":
                     sig.append(("B", tuple(re.sub(r"@L\d+", "@L", re.sub(r"keycmp_(no)?case", "CMP", y)) if isinstance(y, str) else y for y in ev_[1]), ev_[2]))
